@@ -5,6 +5,9 @@ from typing import Any, Dict, List
 
 import numpy as np
 
+import contextlib
+import io
+
 from .. import esh, leanproj, mdh
 from ..core import Ctx, f2b, b2f
 
@@ -140,7 +143,48 @@ def probe_observables(inp: Dict[str, Any]) -> Dict[str, Any]:
     }
 
 
-PROBES = {"observables": probe_observables}
+def probe_second_call(inp: Dict[str, Any]) -> Dict[str, Any]:
+    """the same Molecule object evaluated again at a moved/rotated geometry (what MD and optimisers do): the reported gap is still LUMO-HOMO
+    of the reported orbital energies, which are still the (ascending) eigenvalues of the Fock operator"""
+    import torch
+
+    from seqm.ElectronicStructure import Electronic_Structure
+    from seqm.Molecule import Molecule
+    from seqm.seqm_functions.constants import Constants
+
+    s, x, ch, mu = esh.batch(inp["names"])
+    sp = esh.settings(method=inp["method"], eps=1e-10)
+    rng = np.random.default_rng(inp["seed"])
+    bad = []
+    kinds = set()
+    with contextlib.redirect_stdout(io.StringIO()):
+        mol = Molecule(Constants(), sp, torch.as_tensor(x), torch.as_tensor(s))
+        es = Electronic_Structure(sp)
+        es(mol)
+        for it in range(inp.get("ncalls", 2)):
+            R = esh.random_rotation(rng) if inp.get("rotate", True) else np.eye(3)
+            if inp.get("quarter_turn") and it == 0:
+                R = np.array([[0.0, -1, 0], [1, 0, 0], [0, 0, 1]])
+            xn = (x @ R.T + rng.normal(size=x.shape) * inp.get("jitter", 0.0)) * (s > 0)[..., None]
+            with torch.no_grad():
+                mol.coordinates.copy_(torch.as_tensor(xn))
+            es(mol, P0=mol.dm)
+            ref = esh.run(s, xn, esh.settings(method=inp["method"], eps=1e-10))
+            e = mol.e_mo.detach().numpy()
+            for m in range(len(inp["names"])):
+                nb, no = int(mol.norb[m]), int(mol.nocc[m])
+                g_true = float(np.sort(ref["e_mo"][m][:nb])[no] - np.sort(ref["e_mo"][m][:nb])[no - 1])
+                if abs(float(mol.e_gap[m]) - g_true) > 1e-6:
+                    bad.append(f"call {it + 2}, mol{m}: reported gap {float(mol.e_gap[m]):.6f} != LUMO-HOMO {g_true:.6f} of a fresh calculation at the same geometry"); kinds.add("gap")
+                if np.abs(np.sort(e[m][:nb]) - np.sort(ref["e_mo"][m][:nb])).max() > 1e-6:
+                    bad.append(f"call {it + 2}, mol{m}: reported orbital energies are not the Fock eigenvalues"); kinds.add("e_mo_values")
+                if (np.diff(e[m][:nb]) < -1e-9).any():
+                    bad.append(f"call {it + 2}, mol{m}: reported orbital energies are not in ascending order: {e[m][:nb].round(3).tolist()}"); kinds.add("e_mo_order")
+    return {"ok": not bad, "observed": bad[:4], "expected": "gap = LUMO-HOMO of the reported ascending orbital energies on every call", "predicate": "",
+            "fields": {"kinds": sorted(kinds), "method": inp["method"]}}
+
+
+PROBES = {"observables": probe_observables, "second_call": probe_second_call}
 
 
 def gen_cases(ctx: Ctx) -> List[Dict[str, Any]]:
@@ -233,6 +277,13 @@ def run(ctx: Ctx):
         drv.close()
     cases = gen_cases(ctx)
     results = mdh.pmap(probe_observables, cases)
+    sc_cases = [{"names": ["ch2o"], "method": "AM1", "seed": 1, "quarter_turn": True}, {"names": [str(ctx.rng.choice(["h2o", "nh3", "hcn", "so2"]))], "method": str(ctx.rng.choice(["AM1", "PM3", "MNDO"])),
+                                                                                         "seed": int(ctx.rng.integers(0, 10**6)), "ncalls": 3, "jitter": 0.02}]
+    for c, r in zip(sc_cases, mdh.pmap(probe_second_call, sc_cases)):
+        if isinstance(r, Exception) or r is None:
+            ctx.obligation("probe second_call evaluated", False, repr(r)[:1500], kind="harness")
+            continue
+        ctx.probe_case("second_call", c, r["ok"], fields=r["fields"], observed=r["observed"], expected=r["expected"], predicate=r["predicate"], stratum="second_call")
     for c, r in zip(cases, results):
         if isinstance(r, Exception) or r is None:
             ctx.obligation("probe observables evaluated", False, repr(r)[:1500], kind="harness")
